@@ -1,4 +1,6 @@
 """History generation, execution and packet-level oracles for the MQTT properties."""
+import re
+
 from mqcommon import *
 
 
@@ -15,8 +17,14 @@ def gen_request(rng, F, flavor):
         path = rng.choice(internals)
     elif r < 0.75:
         path = rng.choice(leaves) + "/x"
-    elif r < 0.85:
+    elif r < 0.82:
         path = "/" + rng.choice(["nope", "", "0", "arr/9", "l9", "inner/y", "lut/12", "lut/01", "lut/21", "trip/0"])
+    elif r < 0.85:
+        # below a node that may be absent at run time (Option / other enum variant): a valid or an invalid remainder, and a
+        # decimal numeral beyond usize at an array level (a key is any string: it has to be refused, not to overflow)
+        path = rng.choice(["/o/nope", "/o/p/deeper", "/o/", "/opt/x", "/opt/", "/mode/A/x", "/mode/C",
+                           "/lut/18446744073709551616", "/lut/18446744073709551617", "/arr/36893488147419103233",
+                           "/lut/340282366920938463463374607431768211457", "/arr/00000000000000000000001", "/18446744073709551616"])
     elif r < 0.9:
         path = rng.choice(["foo", "x/y", "bar"])           # no leading slash: everything before the first '/' is ignored
     else:
@@ -66,6 +74,9 @@ def gen_request(rng, F, flavor):
     else:
         cd = None
     return f"pub:{cp(topic)}:{cp(payload)}:{cp(rt) if rt is not None else '-'}:{cd if cd is not None else '-'}:{rng.choice([0, 0, 1])}:0"
+
+
+LATE_TRIP = ['[10,20,"x"]', "[10,20]", "[10,20,30", "[10,20,99999]", "[10,20,30,40]"]
 
 
 def gen_history(rng, fam, flavor, length):
@@ -134,6 +145,14 @@ def gen_history(rng, fam, flavor, length):
                f"pub:{topic}:{cp(str(rng.randrange(256)))}:{rng.choice([cp(RESP), '-'])}:{rng.randrange(256):02x}:0:0",
                f"un{rng.choice([1, 2, 3])}", rng.choice(["vlock0", "vlock0", "modea7"]),
                f"pub:{topic}:{cp(str(rng.randrange(256)))}:{cp(RESP)}:{rng.randrange(256):02x}:0:0", f"un{rng.choice([2, 4])}"]
+    if fam == 3 and not small and rng.random() < 0.4:
+        # a refused write to the compound leaf `/trip` ([i16; 3]) whose payload fails only after its first elements have parsed,
+        # then a Get of it: the settings are unchanged, not half-written
+        trip = cp(PREFIX + "/settings/trip")
+        ev += [f"set:{cp('/trip')}:{cp('[1,2,3]')}",
+               f"pub:{trip}:{cp(rng.choice(LATE_TRIP))}:{cp(RESP)}:"
+               f"{rng.randrange(256):02x}:0:0", f"un{rng.choice([2, 3])}",
+               f"pub:{trip}:e:{cp(RESP)}:{rng.randrange(256):02x}:0:0", f"un{rng.choice([2, 3])}"]
     for _ in range(length):
         r = rng.random()
         if r < 0.4 and small:
@@ -633,6 +652,44 @@ def run_mqtt(rep, prop_id, rng, tier):
                     rep.violation("model-diff", {"correspondence": "mq/mqm", "case": lines[i], "what": d}, no_input=True)
     else:
         rep.violation("proof", {"what": "Lean driver unavailable", "log": dmsg}, no_input=True)
+    n_pfx = 0
+    if prop_id == "C10":
+        # the constructor's topic-length assert against the longest topic a dump really builds: for every family the longest
+        # admissible prefix (and one byte less) must be accepted and its initial dump must publish every leaf on
+        # `<prefix>/settings<path>`; one byte more must be refused by `MqttClient::new` (independent reading of the limit:
+        # len(prefix) + len("/settings") + longest leaf path <= 128)
+        plines, want = [], {}
+        for fam in (0, 1, 2, 3):
+            F = Fam(fam)
+            longest = max(len(p_.encode()) for p_, _ in F.leaves)
+            kmax = 128 - len("/settings") - longest - len(PREFIX)
+            for k in (0, kmax - 1, kmax, kmax + 1):
+                cid = f"n{fam}x{k}"
+                plines.append(f"mq {cid} {fam} 2048 pfx{k} un8 adv2000 un80")
+                want[cid] = (fam, k, k <= kmax)
+        _rc, pout, _err = run_lines(harness_bin("dev"), plines)
+        base = {}
+        for cid, (fam, k, admitted) in want.items():
+            out = pout.get(cid) or ""
+            n_pfx += 1
+            pubs = [t for t in re.findall(r"PUB\(t=([0-9.e]+),", out)]
+            pre = cp(PREFIX + "p" * k + "/settings")
+            dumped = sorted(t[len(pre):] for t in pubs if t.startswith(pre + "."))
+            why = None
+            if admitted:
+                if out.startswith("panic"):
+                    why = f"family {fam}: a prefix of {len(PREFIX) + k} bytes satisfies the documented limit but the client panicked: {out[:160]}"
+                elif k == 0:
+                    base[fam] = dumped
+                elif len(dumped) != len(base.get(fam, dumped)):
+                    why = (f"family {fam}, prefix of {len(PREFIX) + k} bytes: the initial dump published {len(dumped)} leaves, "
+                           f"{len(base[fam])} with the short prefix")
+            elif not (out.startswith("panic") and "assertion_failed" in out):
+                why = (f"family {fam}: with a prefix of {len(PREFIX) + k} bytes the longest leaf topic has 129 bytes, more than "
+                       f"MAX_TOPIC_LENGTH, but MqttClient::new accepted it: {out[:120]}")
+            if why:
+                n_or_fail += 1
+                rep.violation("oracle", {"case": f"mq {cid} {fam} 2048 pfx{k} un8 adv2000 un80", "why": why})
     n_updates = sum(len([x for x in p[1] if x["k"] == "U"]) for p in parsed.values())
     rep.coverage = {
         "obligations": pl["obligations"],
